@@ -1,5 +1,6 @@
 """C01 — canonical JSON: structural necessary conditions (sorted map type, integer admission, plain serializer, no pretty printing)."""
 import json, os, subprocess
+import re
 from .. import dex as D, world as W, mir as M, facts as F
 from . import util as U
 
@@ -41,9 +42,11 @@ def run(ctx):
                             "try_from = Err give CanonicalJsonError::IntConvert; strings/bools/null pass through unchanged; arrays and objects "
                             "convert every element with the same fallible conversion")
     # free helper functions of the module are inlined: moving the number conversion into a helper must look the same
-    HELPERS = "ruma_common::canonical_json::value::"
+    HELPERS = "ruma_common::canonical_json::"
     def is_helper(n):
-        return n.startswith(HELPERS) and "{closure" not in n and "<" not in n[len(HELPERS):]
+        rest = n[len(HELPERS):] if n.startswith(HELPERS) else None
+        return rest is not None and "{closure" not in rest and "<" not in rest and rest.count("::") <= 1 and \
+            rest.rsplit("::", 1)[-1] not in ("redact", "redact_in_place", "redact_content_in_place", "to_canonical_value")
     dex = D.Dex(w.lookup, adt_discr=w.adt_discr, effects=lambda n: True, unroll=1, inline=is_helper)
     f = w.fn(f"<{V} as core::convert::TryFrom<serde_json::value::Value>>::try_from")
     paths = dex.paths(f, [D.sym("val")])
@@ -69,22 +72,25 @@ def run(ctx):
     objp = [p for p in paths if p.kind == "ret" and U.is_ok(p.ret) and "CanonicalJsonValue::Object(" in D.show(p.ret)]
     good = bool(objp)
     if good:
-        # the member-conversion closure is the one whose parameter is a (key, value) pair (not identified by its ordinal)
-        pre = f"<{V} as core::convert::TryFrom<serde_json::value::Value>>::try_from::{{closure#"
-        cands = [g for g in w.all_fns() if g["path"].startswith(pre) and g["path"].count("{closure") == 1 and "body" in g
-                 and g["body"]["argc"] == 2 and g["body"]["locals"][2].startswith("(")]
+        # the member-conversion closure is the one the Object result is built with (named in the result, whatever function it lives in)
+        names = set()
+        for p in objp:
+            names |= set(re.findall(r"closure\[([^\]]+)\]", D.show(p.ret)))
+        cands = [g for g in (w.lookup(n) for n in names) if g is not None and "body" in g and g["body"]["argc"] == 2 and g["body"]["locals"][2].startswith("(")]
         if len(cands) != 1:
-            raise F.MissingAnchor(f"object member closure of TryFrom<Value> not identified ({len(cands)} candidates)")
+            raise F.MissingAnchor(f"object member closure of TryFrom<Value> not identified ({len(cands)} candidates among {sorted(names)})")
         clo = cands[0]
         cps = dex.paths(clo, [D.sym("env"), ("tup", (D.sym("k"), D.sym("v")))])
         oks = [p for p in cps if p.kind == "ret" and U.is_ok(p.ret)]
-        good = len(oks) == 1 and D.show(oks[0].ret) == "Result::Ok((k, TryInto::try_into(v).Ok.0))" and \
-            all(D.show(p.ret).startswith("Result::Err(TryInto::try_into(v).Err.0") for p in cps if p.kind == "ret" and U.is_err(p.ret))
+        # v.try_into() and CanonicalJsonValue::try_from(v) are the same conversion (TryInto's blanket impl)
+        norm = lambda t: t.replace("TryFrom::try_from(", "TryInto::try_into(")
+        good = len(oks) == 1 and norm(D.show(oks[0].ret)) == "Result::Ok((k, TryInto::try_into(v).Ok.0))" and \
+            all(norm(D.show(p.ret)).startswith("Result::Err(TryInto::try_into(v).Err.0") for p in cps if p.kind == "ret" and U.is_err(p.ret))
     ctx.check(good, "C01.numbers", "C01.numbers:object-members", w.where(f), bad_msg="object members are not (same key, fallibly converted value)")
     # Deserialize goes through the same conversion
     fde = w.fn(f"<{V} as serde_core::de::Deserialize<'de>>::deserialize")
     pde = [p for p in dex.paths(fde, [D.sym("de")]) if p.kind == "ret" and U.is_ok(p.ret)]
-    ctx.check(len(pde) == 1 and "::try_into(" in D.show(pde[0].ret) and "::deserialize(de).Ok.0)" in D.show(pde[0].ret), "C01.numbers", "C01.numbers:deserialize",
+    ctx.check(len(pde) == 1 and ("::try_into(" in D.show(pde[0].ret) or "TryFrom::try_from(" in D.show(pde[0].ret)) and "::deserialize(de).Ok.0)" in D.show(pde[0].ret), "C01.numbers", "C01.numbers:deserialize",
               w.where(fde), bad_msg=f"Deserialize does not go through TryFrom<Value>: {[D.show(p.ret)[:100] for p in pde]}")
 
     # ---- deny list over the module + ruma-signatures -------------------------------------------------
@@ -134,13 +140,15 @@ def run(ctx):
         names = [n for n, _ in eff]
         body_names = [n for n in names if n not in ("branch", "from_residual")]
         n_entries = names.count("serialize_entry")
-        good = body_names[:3] == ["len", "serialize_map", "into_iter"] and body_names[-1] == "end" and \
+        # `for (k, v) in map` and `map.iter().try_for_each(..)` walk the same BTreeMap iterator
+        good = body_names[:2] == ["len", "serialize_map"] and body_names[2] in ("into_iter", "iter") and body_names[-1] == "end" and \
             set(body_names[3:-1]) <= {"next", "serialize_entry"} and names.count("next") == n_entries + 1
-        it = [a for n, a in eff if n == "into_iter"]
+        it = [a for n, a in eff if n in ("into_iter", "iter")]
         good = good and it and it[0] == ["self.Object.0"]
         for n, a in eff:
             if n == "serialize_entry":
-                good = good and a[1].endswith(".Some.0.0") and a[2].endswith(".Some.0.1") and a[1][:-2] == a[2][:-2] and "into_iter(self.Object.0)" in a[1]
+                good = good and a[1].endswith(".Some.0.0") and a[2].endswith(".Some.0.1") and a[1][:-2] == a[2][:-2] and \
+                    ("into_iter(self.Object.0)" in a[1] or "into_iter(BTreeMap::iter(self.Object.0))" in a[1])
         ctx.check(bool(good), "C01.serialize", f"C01.serialize:Object:entries={n_entries}", w.where(f), bad_msg=f"effects {names}")
     fd = w.fn(f"<{V} as core::fmt::Display>::fmt")
     calls = [M.callee_name(c) for _, c in M.calls(fd["body"])]
